@@ -9,7 +9,7 @@ namespace NemoVerif.Drive.C12
 open Lean NemoVerif NemoVerif.Drive
 
 /-! JSON codecs (harness/props/C12.py is the Python twin).
-  Prim:  ["label",n] ["goto",l] ["fork",uid,[l..]] ["merge",uid] ["wait",k] ["catch",l|null] ["break",l|null]
+  Prim:  ["label",n] ["goto",l] (conditional) ["jump",l] (Goto whose expression is the constant True) ["fork",uid,[l..]] ["merge",uid] ["wait",k] ["catch",l|null] ["break",l|null]
          ["continue",l|null] ["begin",n] ["end",n] ["abort"] ["return"] ["op",op,group,retVar] ["assign",nld]
          ["other",kind] ["composite",kind]
   Elem:  {"k":kind,"n":_next|null,"e":_next_else|null,"b":_next_on_break|null,"c":_next_on_continue|null,
@@ -35,6 +35,7 @@ def primOfJson (j : Json) : Except String (Closed.Prim String) := do
   match tag with
   | "label" => pure (.label (← (arg 1).getStr?))
   | "goto" => pure (.goto (← (arg 1).getStr?))
+  | "jump" => pure (.jump (← (arg 1).getStr?))
   | "fork" => pure (.fork (← (arg 1).getStr?) (← strListJ (arg 2)))
   | "merge" => pure (.merge (← (arg 1).getStr?))
   | "wait" => pure (.waitHeads (← (arg 1).getNat?))
@@ -60,6 +61,7 @@ def optLblJ : Option Expand.Lbl → Json
 def primToJsonWith {L : Type} (renderLbl : L → String) : Closed.Prim L → Json
   | .label n => Json.arr #["label", renderLbl n]
   | .goto l => Json.arr #["goto", renderLbl l]
+  | .jump l => Json.arr #["jump", renderLbl l]
   | .fork u ls => Json.arr #["fork", renderLbl u, Json.arr (ls.map fun l => Json.str (renderLbl l)).toArray]
   | .merge u => Json.arr #["merge", renderLbl u]
   | .waitHeads n => Json.arr #["wait", Json.num (JsonNumber.fromNat n)]
